@@ -149,3 +149,19 @@ class Outcome:
             print("VIOLATION property=%s replay=%s" % (pid, path))
         sys.stdout.flush()
         return 1 if self.violations else 0
+
+
+def tier_params(meta, tier):
+    """Tier parameters of a meta file.  VERIF_BUDGET_SCALE=f (0 < f < 1; smoke runs of the thorough tier, never used by a
+    registered command) scales every time budget and case count; the evidence says so in its notes."""
+    tp = dict(meta["tiers"][tier])
+    try:
+        f = float(os.environ.get("VERIF_BUDGET_SCALE") or 1.0)
+    except ValueError:
+        f = 1.0
+    if 0 < f < 1:
+        for k in ("budget_s", "fuzz_s", "cases", "examples"):
+            if k in tp:
+                tp[k] = max(1, int(tp[k] * f))
+        tp["_scaled"] = f
+    return tp
